@@ -96,6 +96,57 @@ def check_model(rep, drv, gen, rng, m, text, c):
     return removed
 
 
+def check_submodels(rep, c, text, rng):
+    """sub-models (component.to_ode(), model - component) read values from the other half through the
+    missing_variables array: removal of unused variables must not change that array's layout, the formals, or the
+    values returned for one and the same argument list"""
+    ode = c.ode
+    n_checked = 0
+    for comp in list(ode.components):
+        for half_name, build in (("to_ode", lambda: comp.to_ode()), ("minus", lambda: ode - comp)):
+            try:
+                sub = build()
+            except Exception:  # noqa: BLE001
+                continue
+            if not sub.missing_variables or not sub.states:
+                continue
+            try:
+                codes = {ru: impl.gen_python(sub, schemes=["explicit_euler"], remove_unused=ru) for ru in (False, True)}
+            except Exception as ex:  # noqa: BLE001
+                rep.count("sub_generation_raises:" + type(ex).__name__)
+                continue
+            fns = {ru: impl.export_functions(codes[ru]) for ru in codes}
+            nss = {ru: impl.exec_module(codes[ru]) for ru in codes}
+            ss = [s.name for s in sub.sorted_states()]
+            pn = [p.name for p in sub.parameters]
+            nm = len(sub.missing_variables)
+            for fname in ("rhs", "explicit_euler"):
+                if fns[False][fname]["args"] != fns[True][fname]["args"]:
+                    rep.violation(f"{half_name} of {comp.name!r}: {fname} has formals {fns[False][fname]['args']} without removal and "
+                                  f"{fns[True][fname]['args']} with removal",
+                                  {"kind": "direct", "text": text, "component": comp.name, "half": half_name})
+                    return n_checked
+            for _ in range(2):
+                st = [rng.randrange(-12, 13) / 8.0 for _ in ss]
+                ps = [rng.randrange(-12, 13) / 8.0 for _ in pn]
+                ms = [rng.randrange(-12, 13) / 8.0 for _ in range(nm)]
+                outs = {}
+                for ru in (False, True):
+                    with np.errstate(all="ignore"):
+                        try:
+                            outs[ru] = np.array(impl.call_numpy(nss[ru]["rhs"], fns[ru]["rhs"]["args"], 0.5, st, ps, missing=ms), dtype=float)
+                        except Exception as ex:  # noqa: BLE001
+                            outs[ru] = repr(ex)
+                if isinstance(outs[False], str) or isinstance(outs[True], str) or not family.eq_arrays(outs[False], outs[True]):
+                    rep.violation(f"{half_name} of {comp.name!r}: rhs with removal gives {outs[True]}, without {outs[False]} for the same "
+                                  f"states, parameters and missing_variables",
+                                  {"kind": "direct", "text": text, "component": comp.name, "half": half_name,
+                                   "inputs": {"states": st, "params": ps, "missing": ms}})
+                    return n_checked
+            n_checked += 1
+    return n_checked
+
+
 def main(argv=None):
     a = core.std_args(argv)
     rep = core.Report("C12", a.tier, a.seed)
@@ -115,6 +166,8 @@ def main(argv=None):
             continue
         m, text, c = got
         removed = core.guarded(rep, text, check_model, rep, drv, gen, rng, m, text, c)
+        if len(list(c.ode.components)) > 1:
+            rep.count("sub_models_with_missing_variables", core.guarded(rep, text, check_submodels, rep, c, text, rng) or 0)
         rep.case(key=text, nontrivial=bool(removed))
         rep.count("models_where_removal_changes_the_program", 1 if removed else 0)
         rep.sample({"text": text, "unused": m["unused"]}, limit=2)
